@@ -376,6 +376,10 @@ def work(chunk):
         if d["tag"].startswith("thr") and INTENT[d["encoder"]] != "co":
             continue
         check_one(d, out, timeout_ms)
+        if not d.get("reuse_same", True):
+            # the encoder object emitted a different CNF the second time: validate that one as a program of its own
+            d2 = dict(d, clauses=d["clauses_second"], n_vars=max(d["n_vars_second"], d["n_vars"]), tag=d["tag"] + "@second-use")
+            check_one(d2, out, timeout_ms)
         if len(samples) < 1 and d["n"] >= 2 and d["clauses"]:
             samples.append({k: d[k] for k in ("tag", "encoder", "range", "n", "attacks", "clauses", "arg_lits", "first_range_var", "n_vars")})
     return out, len([d for d in dumps if not (d["tag"].startswith("thr") and INTENT[d["encoder"]] != "co")]), samples
